@@ -2,6 +2,10 @@
 //! REAL signer runtimes (state machine, runner, services, file-backed sqlite, KES signer, HTTP
 //! client) against the REAL aggregator of mon-agg's `Sim` in the same process, through a loopback
 //! HTTP front that injects faults and logs the boundary.
+//! Every real signer has its own chain observer double (its Cardano node, which may lag behind the
+//! world's at an epoch change); the aggregator may be restarted with changed protocol parameters,
+//! and the model takes the parameters of every registration round from the aggregator's own
+//! announcements.
 mod agg;
 mod front;
 mod hist;
@@ -143,6 +147,8 @@ async fn child(args: &vcore::Args) {
             (0, 0) => Some("honest"),
             (0, 1) => Some("missed-round"),
             (0, 2) => Some("lost-registration"),
+            (1, 0) => Some("parameter-change"),
+            (1, 1) => Some("node-lag"),
             _ => None,
         };
         match workload::one_history(&mut mon, &mut rng, hdir.clone(), &hid, scenario).await {
